@@ -519,7 +519,10 @@ def compare(interp, st, op, l, r, node=None):
     if isinstance(l, (Arr, Grid)) or isinstance(r, (Arr, Grid)):
         if isinstance(l, tuple) and isinstance(r, Arr) or isinstance(r, tuple) and isinstance(l, Arr):
             pass
-        return _elementwise2(interp, st, l, r, lambda a, b: s_cmp(op, a, b), "bool", node)
+        res = _elementwise2(interp, st, l, r, lambda a, b: s_cmp(op, a, b), "bool", node)
+        if t is ast.NotEq and isinstance(l, Grid) and isinstance(r, Grid) and isinstance(res, Grid):
+            res.neq_of = (l, r)  # remembered so that np.sum(a != b) is the number of differing entries of a and b
+        return res
     if isinstance(l, (tuple, list)) and isinstance(r, (tuple, list)):
         if t is ast.Eq:
             return tuple_eq(l, r)
